@@ -83,6 +83,33 @@ Theorem C09_objstm_limit_plumbed :
 Proof. exact osd_limit_plumbed. Qed.
 Print Assumptions C09_objstm_limit_plumbed.
 
+(* FlateDecode predictor stage (decodePostProcess): for EVERY decode mode — full decode (maxLen = -1) and
+   partial decode (maxLen >= 0, e.g. the object stream prolog) — the two row buffers and the output row
+   are only allocated when a row fits the decode limit in force; the row size is exact (no overflow:
+   the products and sums are exact-or-error) *)
+Theorem C09_row_buffers_le_limit : forall mdb p c b col maxLen rs rl,
+  rowGuard mdb p c b col maxLen = RAlloc rs rl ->
+  let limit := decodeLimit mdb (-1) in
+  (0 <= limit -> rl <= limit) /\ (0 < mdb -> rl <= mdb) /\ (mdb = 0 -> rl <= DefaultMaxDecodeBytes) /\
+  0 <= rs <= rl /\ rl <= rs + 1 /\ rl <= maxInt64.
+Proof. exact row_buffers_le_limit. Qed.
+Print Assumptions C09_row_buffers_le_limit.
+
+Theorem C09_row_bomb_fails : forall mdb p c b col c' b' col' maxLen rs rl bpp,
+  0 < mdb -> p <> 1 -> validPredictor p = true ->
+  flateParameters c b col = Ok (c', b', col') ->
+  predictorRowParams p c' b' col' = Ok (rs, rl, bpp) -> mdb < rl ->
+  rowGuard mdb (Some p) c b col maxLen = RErrLimit.
+Proof. exact row_bomb_fails. Qed.
+Print Assumptions C09_row_bomb_fails.
+
+(* every partial-decode call site of the sources (decode mode from the regenerated table) is one the
+   harness drives a row bomb through *)
+Theorem C09_partial_sites_covered : forall s, In s decode_sites -> is_partial s = true ->
+  existsb (fun a => same_site a s) partial_sites_covered = true.
+Proof. exact partial_sites_all. Qed.
+Print Assumptions C09_partial_sites_covered.
+
 Theorem C09_image_bounded : forall w h l px rb, imageOK w h l = Ok (px, rb) ->
   0 < w /\ 0 < h /\ px = w * h /\ px <= MaxImagePixels l /\ rb = 4 * px /\
   rb <= MaxImageBytes l /\ rb <= maxInt64.
@@ -112,5 +139,7 @@ Example C09_nonvacuous :
   copyDecoded 65536 200000000 (-1) = DErrLimit /\ copyDecoded 65536 65536 (-1) = DOk 65536 /\
   xrefObjects 10 (Some [(0, 4); (8, 2)]) (mklim 100 5 0 0 0 0) false = Err /\
   xrefObjects 10 (Some [(0, 3); (8, 2)]) (mklim 100 5 0 0 0 0) false = Ok (5, 10, 10) /\
-  imageOK 40000 40000 (mklim 0 0 0 0 (2^40) (2^40)) = Ok (1600000000, 6400000000).
+  imageOK 40000 40000 (mklim 0 0 0 0 (2^40) (2^40)) = Ok (1600000000, 6400000000) /\
+  rowGuard 1048576 (Some 12) None None (Some 67108864) 16 = RErrLimit /\
+  rowGuard 1048576 (Some 12) None None (Some 1048575) 16 = RAlloc 1048575 1048576.
 Proof. vm_compute. repeat split. Qed.
